@@ -440,17 +440,20 @@ func counterIncrement(v ssa.Value) ssa.Instruction {
 // needBackoff is false and hasServerError(...) is false, i.e. every retried
 // call failed with NotServingRegionError.
 func nsreOnlyRound(fn *ssa.Function, facts []kit.Fact) bool {
+	// the "some retried call needs a back-off" flag is the condition of the
+	// branch whose true edge leads straight to the back-off wait
 	for _, f := range facts {
-		if f.Pol {
+		if f.Pol || f.If == nil {
 			continue
 		}
-		if u, ok := f.Cond.(*ssa.UnOp); ok && u.Op == token.MUL {
-			if a, ok := u.X.(*ssa.Alloc); ok && a.Comment == "needBackoff" {
+		if _, isCall := f.Cond.(*ssa.Call); isCall {
+			continue
+		}
+		t := kit.SuccOnTrue(f.If)
+		for _, call := range kit.Calls(fn, sleepName) {
+			if t == call.Block() || t.Dominates(call.Block()) {
 				return true
 			}
-		}
-		if ph, ok := f.Cond.(*ssa.Phi); ok && ph.Comment == "needBackoff" {
-			return true
 		}
 	}
 	return false
